@@ -788,7 +788,12 @@ pub fn project_update(cfg: &Elem) -> Value {
                 foreign.push(format!("/configuration/policy-options/{}", ps.name));
                 continue;
             }
-            let name = ps.child("name").map(|n| n.t()).unwrap_or_default();
+            // a name is taken as it is written (quoted names may begin or end with a blank); only white space that
+            // comes from laying the document out on several lines is not part of it
+            let name = ps
+                .child("name")
+                .map(|n| if n.text.contains('\n') { n.t() } else { n.text.clone() })
+                .unwrap_or_default();
             let mut terms = Vec::new();
             let mut reject = false;
             for x in &ps.children {
